@@ -451,21 +451,36 @@ func vRunC09(c *vCase) {
 			f.truth[ch][i] = base
 		}
 	}
-	owner := map[int]int{} // stream-relative sample -> channel
+	// (one pulse in five is planted on two triggering channels at the same frame: a receiver's own primary then coincides
+	// with a source's primary, and two sources of one receiver fire on the same frame)
+	owner := map[int]map[int]bool{} // stream-relative sample -> channels with a pulse there
 	at := npre + r.Intn(nsamp)
 	for at+nsamp < total {
 		ch := r.Intn(nchan)
 		for !hasTrig[ch] {
 			ch = r.Intn(nchan)
 		}
-		owner[at] = ch
-		// step up by 1000 at `at`, hold 3 samples, then decay slowly in small steps (no falling trigger enabled)
-		for j := 0; j < nsamp/2 && at+j < total; j++ {
-			v := 1000 - j*(2000/nsamp+1)
-			if v < 0 {
-				v = 0
+		chs := []int{ch}
+		if vChance(r, 0.2) {
+			for try := 0; try < 8; try++ {
+				if c2 := r.Intn(nchan); c2 != ch && hasTrig[c2] {
+					chs = append(chs, c2)
+					c.Cov("coincident_pulses", 1)
+					break
+				}
 			}
-			f.truth[ch][at+j] += RawType(v)
+		}
+		owner[at] = map[int]bool{}
+		for _, ch := range chs {
+			owner[at][ch] = true
+			// step up by 1000 at `at`, hold 3 samples, then decay slowly in small steps (no falling trigger enabled)
+			for j := 0; j < nsamp/2 && at+j < total; j++ {
+				v := 1000 - j*(2000/nsamp+1)
+				if v < 0 {
+					v = 0
+				}
+				f.truth[ch][at+j] += RawType(v)
+			}
 		}
 		at += nsamp + 8 + r.Intn(2*nsamp)
 	}
@@ -612,6 +627,7 @@ func vRunC09(c *vCase) {
 		// classify
 		prim := map[int][]int{} // channel -> primary frames (relative)
 		sec := map[int][]int{}
+		seenPrim := map[vPair]bool{}
 		for _, rec := range recs {
 			rel := int(rec.trigFrame - f.firstFrame)
 			ch := rec.channelIndex
@@ -620,7 +636,9 @@ func vRunC09(c *vCase) {
 				c.Violate("c09:samples", "record %s does not carry channel %d's own samples around frame %d", vFmtRec(rec), ch, rec.trigFrame)
 				return
 			}
-			if own, ok := owner[rel]; ok && own == ch {
+			// the first record of a channel at a frame where it has a planted pulse is its primary; any further one is a secondary
+			if owner[rel][ch] && !seenPrim[vPair{ch, rel}] {
+				seenPrim[vPair{ch, rel}] = true
 				prim[ch] = append(prim[ch], rel)
 			} else {
 				sec[ch] = append(sec[ch], rel)
@@ -641,7 +659,27 @@ func vRunC09(c *vCase) {
 			sort.Ints(want)
 			got := append([]int(nil), sec[rx]...)
 			sort.Ints(got)
-			if fmt.Sprint(want) != fmt.Sprint(got) {
+			// every frame of the sources' primaries at least once and at most as often as sources fired on it (when two
+			// sources fire on the same frame the statement's "union" can be read either way), and nothing else
+			okSec := true
+			wm, gm := map[int]int{}, map[int]int{}
+			for _, x := range want {
+				wm[x]++
+			}
+			for _, x := range got {
+				gm[x]++
+			}
+			for x, n := range wm {
+				if gm[x] < 1 || gm[x] > n {
+					okSec = false
+				}
+			}
+			for x := range gm {
+				if wm[x] == 0 {
+					okSec = false
+				}
+			}
+			if !okSec {
 				c.Violate("c09:secondaries", "step %d (history %v): channel %d emitted secondaries at %v, but its sources %v had primaries %v this cycle (connections %v)",
 					step, hist, rx, got, vSourcesOf(model, rx), want, vPairs(model))
 				return
@@ -716,7 +754,7 @@ func init() {
 		},
 		Meta: vMeta{
 			Level:       "exploration",
-			Rule:        "case = history of 4-30 steps; each step = 0-4 edits (add/delete with valid, repeated, self, negative and too-large indices; stop-coupling; err/fb coupling on a Lancero-typed source) then one block with pulses planted at globally unique frames on one channel each; after every edit the reported connections are compared with a set model, after every block the multiset of secondaries per receiver with the union of its model sources' primaries; non-trivial = every completed history. 1 of 7 cases is instead a session of the C11 harness against an in-package SourceControl (Triangle / scripted Lancero / self-ending sources) made mostly of add/delete/stop-coupling requests incl. partly valid ones: after each, the connection set read from inside the core loop is compared with the GROUPTRIGGER update sent to clients (or, when none was sent, with the set before the request)",
+			Rule:        "case = history of 4-30 steps; each step = 0-4 edits (add/delete with valid, repeated, self, negative and too-large indices; stop-coupling; err/fb coupling on a Lancero-typed source) then one block with pulses planted at distinct frames, each on one channel or (one in five) on two channels at once; after every edit the reported connections are compared with a set model, after every block the multiset of secondaries per receiver with the union of its model sources' primaries; non-trivial = every completed history. 1 of 7 cases is instead a session of the C11 harness against an in-package SourceControl (Triangle / scripted Lancero / self-ending sources) made mostly of add/delete/stop-coupling requests incl. partly valid ones: after each, the connection set read from inside the core loop is compared with the GROUPTRIGGER update sent to clients (or, when none was sent, with the set before the request)",
 			Assumptions: []string{"primaries are told from secondaries by construction: a record at frame f on channel c is a primary iff a pulse was planted at f on c (flat elsewhere)"},
 			Guards: map[string]map[string]int{
 				"quick":    {"cycles_with_secondaries": 300, "secondaries": 1000, "invalid_index_edits": 100, "edits_stop": 50, "edits_coupling": 30, "cycles_with_empty_set": 100, "state_checks": 2000},
